@@ -150,3 +150,24 @@ def scenario_concurrent_saves():
     return {"violated": len(accepted) > 1, "based_on_version": v0, "results": [str(r) for r in res], "accepted": len(accepted),
             "final_version": v_end, "surviving_content": content,
             "scenario": "two save_method calls based on the same version, interleaved at the dispatcher await"}
+
+
+def scenario_user_on_two_units():
+    """one user, one connection, registered on two units; the connection closes"""
+    agg, Mdl, ff, emap = make_frontend()
+    from openpectus.aggregator.frontend_publisher import PubSubTopic
+
+    async def body():
+        for e in ("E1", "E2", "E3"):
+            emap[e] = Mdl.EngineData(e, "pc", "v", "uod", "a", "e", "f", "loc")
+        await ff.user_subscribed_pubsub("c1", [f"{PubSubTopic.DEAD_MAN_SWITCH}/u1"])
+        await ff.user_subscribed_pubsub("c9", [f"{PubSubTopic.DEAD_MAN_SWITCH}/u2"])
+        await ff.register_active_user("E1", "u1", "User One")
+        await ff.register_active_user("E3", "u1", "User One")
+        await ff.register_active_user("E3", "u2", "User Two")
+        await ff.on_ws_disconnect("c1")
+        return {e: sorted(emap[e].active_users) for e in emap}
+    listed = asyncio.run(body())
+    bad = [e for e, us in listed.items() if "u1" in us]
+    return {"violated": bool(bad) or "u2" not in listed["E3"], "active_users_after_last_close": listed,
+            "scenario": "u1 registered on E1 and E3 with one connection, u2 on E3; u1's connection closes"}
